@@ -28,7 +28,7 @@ func init() {
 		Phases: func(tier string, seed int64) []Phase {
 			return []Phase{{Name: "upgrades", Race: true, Run: c13Run}}
 		},
-		MinObserved: []string{"sessions_checked", "tls_records_classified", "post_upgrade_requests_compared", "sessions_open_and_idle_at_stop", "upgrades_served_by_the_default_route", "requests_answered_after_think_time", "handshakes_failed_or_abandoned_by_other_sessions", "sessions_with_an_answered_request_before_the_upgrade"},
+		MinObserved: []string{"sessions_checked", "tls_records_classified", "post_upgrade_requests_compared", "sessions_open_and_idle_at_stop", "upgrades_served_by_the_default_route", "requests_answered_after_think_time", "handshakes_failed_or_abandoned_by_other_sessions", "sessions_with_an_answered_request_before_the_upgrade", "rendezvous_inside_the_tunnel_satisfied", "high_volume_sessions_after_upgrade"},
 	})
 }
 
@@ -199,6 +199,17 @@ func c13Timed(c *Ctx, pki *PKI, tm c13Timing, par int, ti int) {
 		}
 		time.Sleep(time.Duration(tm.D3) * time.Millisecond)
 	}
+	var rdvMu sync.Mutex
+	rdvCh := map[string]chan struct{}{}
+	rdvForced := map[string]bool{}
+	rdv := func(tag string) chan struct{} {
+		rdvMu.Lock()
+		defer rdvMu.Unlock()
+		if rdvCh[tag] == nil {
+			rdvCh[tag] = make(chan struct{})
+		}
+		return rdvCh[tag]
+	}
 	srv, err := startSrv(SrvCfg{}, func(m *gldap.Mux) {
 		if viaDefault {
 			m.DefaultRoute(upgrade)
@@ -209,13 +220,27 @@ func c13Timed(c *Ctx, pki *PKI, tm c13Timing, par int, ti int) {
 		// requests named cn=linger...: the handler stays around for a while after its last response
 		linger := func(h gldap.HandlerFunc) gldap.HandlerFunc {
 			return func(w *gldap.ResponseWriter, r *gldap.Request) {
-				h(w, r)
 				name := ""
 				if m, err := r.GetSimpleBindMessage(); err == nil {
 					name = m.UserName
 				} else if m, err := r.GetSearchMessage(); err == nil {
 					name = m.BaseDN
 				}
+				// a rendezvous inside the tunnel: the first request's handler returns only after the second one's has
+				// been entered (requests are dispatched concurrently, upgraded or not)
+				switch {
+				case strings.HasPrefix(name, "cn=rdv-first-"):
+					select {
+					case <-rdv(strings.TrimPrefix(name, "cn=rdv-first-")):
+					case <-time.After(10 * time.Second):
+						rdvMu.Lock()
+						rdvForced[strings.TrimPrefix(name, "cn=rdv-first-")] = true
+						rdvMu.Unlock()
+					}
+				case strings.HasPrefix(name, "cn=rdv-second-"):
+					close(rdv(strings.TrimPrefix(name, "cn=rdv-second-")))
+				}
+				h(w, r)
 				if strings.HasPrefix(name, "cn=linger") {
 					time.Sleep(300 * time.Millisecond)
 				}
@@ -396,6 +421,53 @@ func c13Timed(c *Ctx, pki *PKI, tm c13Timing, par int, ti int) {
 				mu.Lock()
 				sent = append(sent, specs...)
 				mu.Unlock()
+				// two more requests in one write: the first handler waits for the second to be entered
+				if !c.MuteViolations {
+					tag := fmt.Sprintf("%d-%d", ti, s)
+					search := func(id int64, base string) []byte {
+						return sber.Message(id, sber.Search{Base: []byte(base), Scope: 2, Filter: sber.PresentFilter("cn"), Attrs: [][]byte{}}.Node(), nil).Encode()
+					}
+					tcl.Send(append(search(5000001, "cn=rdv-first-"+tag), search(5000002, "cn=rdv-second-"+tag)...))
+					dones := 0
+					for dones < 2 {
+						pm, err := tcl.ReadMsg(patience)
+						if err != nil {
+							c.Violate("request inside the tunnel failed", fmt.Sprintf("rendezvous pair: %v", err), det)
+							break
+						}
+						if pm.Op.Tag == sber.AppSearchResultDone {
+							dones++
+						}
+					}
+					rdvMu.Lock()
+					forced := rdvForced[tag]
+					rdvMu.Unlock()
+					if forced {
+						c.Violate("requests inside the tunnel are not dispatched concurrently", fmt.Sprintf("two requests pipelined after the upgrade (handler delays %v): the second was not handed to its handler within 10s while the first one's handler was waiting for it", tm), det)
+					} else if dones == 2 {
+						c.Count("rendezvous_inside_the_tunnel_satisfied", 1)
+					}
+				}
+				// a session that moves a lot of data after the upgrade (one large request, then many small ones)
+				if s == 1 && ti%4 == 3 && !c.MuteViolations {
+					big := sber.Message(6000000, sber.AddRequest([]byte("cn=big"), []sber.Attr{{Type: []byte("blob"), Vals: [][]byte{bytes.Repeat([]byte("B"), 300<<10)}}}), nil).Encode()
+					tcl.Send(big)
+					okAll := true
+					if _, err := tcl.ReadMsg(patience); err != nil {
+						okAll = false
+					}
+					for k := 0; k < 400 && okAll; k++ {
+						tcl.Send(sber.Message(int64(6000001+k), sber.BindRequest(3, bytes.Repeat([]byte("d"), 600), []byte("p")), nil).Encode())
+						if _, err := tcl.ReadMsg(patience); err != nil {
+							okAll = false
+						}
+					}
+					if !okAll {
+						c.Violate("request inside the tunnel failed", fmt.Sprintf("a session that sent 300KiB in one request and 400 further requests after the upgrade stopped being answered (handler delays %v)", tm), det)
+					} else {
+						c.Count("high_volume_sessions_after_upgrade", 1)
+					}
+				}
 				// think time: a session that stays in use long after the upgrade must keep being answered
 				if s == 1 && ti == 1 && !c.MuteViolations {
 					pause := time.Duration(c.N(6500, 35000)) * time.Millisecond
